@@ -2,10 +2,11 @@ CONSTANTS
   MaxVer = 3
   MaxSerial = 6
   MaxCmds = 6
-  MaxAborts = 1
+  MaxAborts = 0
   MaxIssued = 1
   Rebootstrap = FALSE
   Wipeouts = TRUE
+  Collide = TRUE
   Times = {1, 2}
   Design = "atomic"
 SPECIFICATION Spec
